@@ -20,6 +20,7 @@ pub mod c16;
 pub mod c17;
 pub mod c18;
 pub mod c19;
+pub mod c20;
 
 pub fn make(id: &str, run: &mut crate::run::Run) -> Option<Box<dyn Prop>> {
 	match id {
@@ -39,6 +40,7 @@ pub fn make(id: &str, run: &mut crate::run::Run) -> Option<Box<dyn Prop>> {
 		"C17" => Some(Box::new(c17::C17::new(run))),
 		"C18" => Some(Box::new(c18::C18::new(run))),
 		"C19" => Some(Box::new(c19::C19::new(run))),
+		"C20" => Some(Box::new(c20::C20::new(run))),
 		"C05" => Some(Box::new(c05::C05::new(run))),
 		"C04" => Some(Box::new(c04::C04::new(run))),
 		_ => None,
@@ -50,7 +52,7 @@ pub fn make_for_replay(id: &str, run: &mut crate::run::Run) -> Option<Box<dyn Pr
 	make(id, run)
 }
 
-pub const ALL: &[&str] = &["C01", "C02", "C03", "C04", "C05", "C06", "C07", "C09", "C10", "C11", "C12", "C13", "C14", "C15", "C16", "C17", "C18", "C19"];
+pub const ALL: &[&str] = &["C01", "C02", "C03", "C04", "C05", "C06", "C07", "C09", "C10", "C11", "C12", "C13", "C14", "C15", "C16", "C17", "C18", "C19", "C20"];
 
 /// (runs, max steps per run) per tier
 pub fn budget(id: &str, thorough: bool) -> (u64, usize) {
@@ -61,6 +63,8 @@ pub fn budget(id: &str, thorough: bool) -> (u64, usize) {
 		("C09", true) => (3000, 400),
 		("C10", false) => (160, 40),
 		("C10", true) => (3000, 120),
+		("C20", false) => (48, 70),
+		("C20", true) => (600, 90),
 		("C13", false) => (160, 90),
 		("C13", true) => (3000, 140),
 		(_, false) => (160, 45),
@@ -95,6 +99,7 @@ pub fn rule(id: &str) -> String {
 		"C14" => "seeded histories on wallets opened with a keychain mask (restarts give every wallet several successive tokens); at random wallet states every token-taking api::Owner method (14 state-changing / key-deriving / secret-revealing ones and 6 read-only ones) is called with the right token, no token, a random token, the right token with one bit flipped, another wallet's token and the token of a previous open; wallets are closed through close_wallet and called again; at the end the same explicit trace is replayed in an unmasked twin world and step outcomes and a canonical end-state projection (per account value/status/coinbase of outputs, entry types, amounts, confirmations, proofs) are compared; a case is one call (method x token class x open/closed) or one twin comparison; non-trivial when the token is not the right one or the wallet is closed".into(),
 		"C09" => "after a seeded history has put valid traffic of every kind on the wire (S1/S2/S3/I1/I2 slates, with and without proofs and TTLs), bursts of faulted decodes: an entry point (V4 slate JSON, armored slatepack plain / encrypted to the wallet, binary and JSON slatepack, decode_slatepack_message, slatepack and onion address, payment-proof JSON + verify, foreign JSON-RPC receive_tx / finalize_tx / build_coinbase bodies, owner JSON-RPC requests inside an honest encrypted envelope, slatepack file, age ciphertext validly encrypted to the wallet with a malformed plaintext) x a byte-level fault (bit flip(s), truncate, extend, duplicate/drop a segment, splice two messages, swap armor words, whitespace/'>' insertion, header/footer edits, alphabet violation, length-prefix extremes, digit edits, whole-message replacement); a case is one (entry, fault, outcome); non-trivial when the fault changed the bytes; panics are caught at the step boundary, allocation is counted per step, a real-time watchdog turns a hang into an abnormal death with a journal".into(),
 		"C10" => "slates taken from a seeded history between 3 wallets are packed by a sender for recipient sets of size 0 (plain armor) to 4 drawn from all wallets' addresses at derivation indices 0..3; each message is delivered to every recipient, misdelivered to every other (wallet, index) identity in the world and to a keyless reader, its raw bytes are searched for the binary and JSON slate, participant keys and the sender address, its armored text is edited (character changed / dropped / inserted / transposed, 16 or 40 edits) and its encrypted payload is bit-flipped and re-armored with a recomputed checksum; a case is one recipient read / misdelivery / text edit / payload edit; misdeliveries and edits are the non-trivial ones".into(),
+		"C20" => "a seeded history (wallets kept stale: blocks mined and transactions confirmed on the node that the wallet has not looked at yet) brings a wallet to a pre-state with several pending transactions; a scenario is T0 (one full update_wallet_state pass, or a scan) plus 1..3 owner/foreign operations (init, lock, receive, finalize, cancel, post) on that wallet; from one directory snapshot every serial order of the tasks is executed (<= 4! orders) to obtain the set of serial outcomes under a canonical projection, then 14 (quick) / 40 (thorough) interleavings are executed as real threads under the baton scheduler (alternating uniform-random and PCT-style priority schedules; yield points are the wallet-lock acquisitions and node calls outside lock scopes) and each end state must be in the serial set; evaluations = interleavings executed, distinct_nontrivial = distinct schedules (choice lists) per scenario".into(),
 		_ => "seeded histories".into(),
 	}
 }
